@@ -43,6 +43,7 @@ fn rewrite(src: &str, kind: &str) -> Option<String> {
 
 fn main() {
     let out_dir = std::env::var("OUT_DIR").expect("OUT_DIR");
+    println!("cargo:rerun-if-env-changed=VERIF_REPO");
     let repo = std::env::var("VERIF_REPO").unwrap_or_else(|_| "/repo".to_string());
     let files = [
         ("work_steal", "core/src/common/work_steal.rs"),
